@@ -150,9 +150,17 @@ inductive NumClass where | bool | int | float
   deriving DecidableEq, Repr
 
 /-- result class of `np.asarray(values)` on Python/NumPy real scalars -/
+def isBoolS : Scalar → Bool
+  | .bool _ => true
+  | _ => false
+
+def isBoolOrIntS : Scalar → Bool
+  | .bool _ | .int _ => true
+  | _ => false
+
 def promote (xs : List Scalar) : NumClass :=
-  if xs.all (fun s => match s with | .bool _ => true | _ => false) then .bool
-  else if xs.all (fun s => match s with | .bool _ | .int _ => true | _ => false) then .int
+  if xs.all isBoolS then .bool
+  else if xs.all isBoolOrIntS then .int
   else .float
 
 /-- element after `np.asarray(...).tolist()` -/
